@@ -652,3 +652,27 @@ def r15(ctx, R):
     from . import c02, c13
     c02.r6b(ctx, R)
     c13.r3(ctx, R)
+
+
+def _status_fields(node):
+    return sorted({n.attr for n in ast.walk(node) if isinstance(n, ast.Attribute) and isinstance(n.value, ast.Attribute) and n.value.attr == 'status'})
+
+
+@rule('C08', 'C08.R18', 'where to restart is decided from the same flag in the serial and the MPI controller: `restarts` collects `status.restart` of every step of the block (list comprehension in the serial run(), allgather in controller_MPI.run), and the MPI controller runs post_step_processing exactly under `not self.S.status.restart`', floor=4)
+def r18(ctx, R):
+    repo = ctx.repo
+    CCD = 'pySDC/implementations/controller_classes/'
+    seen = {}
+    for rel, cn in ((CCD + 'controller_nonMPI.py', 'controller_nonMPI'), (CCD + 'controller_ParaDiag_nonMPI.py', 'controller_ParaDiag_nonMPI'), (CCD + 'controller_MPI.py', 'controller_MPI')):
+        fn = repo.func(rel, f'{cn}.run')
+        w = f'{rel}:{cn}.run'
+        R.fn(w)
+        asg = [s for s in ast.walk(fn) if isinstance(s, ast.Assign) and any(isinstance(t, ast.Name) and t.id == 'restarts' for t in s.targets)]
+        if len(asg) != 1:
+            raise AnalysisError(f'{cn}.run: expected one assignment of `restarts`, found {len(asg)} - re-confirm C08.R18')
+        seen[cn] = _status_fields(asg[0].value)
+        R.check(seen[cn] == ['restart'], f'{cn}.run :: `restarts` collects status.restart of the steps of the block', w, ['restart'], seen[cn])
+    fn = repo.func(CCD + 'controller_MPI.py', 'controller_MPI.run')
+    guards = [ast.unparse(i.test) for i in ast.walk(fn) if isinstance(i, ast.If) and any(isinstance(c, ast.Call) and isinstance(c.func, ast.Attribute) and c.func.attr == 'post_step_processing' for c in ast.walk(i))]
+    inner = [g for g in guards if 'status' in g]
+    R.check(inner == ['not self.S.status.restart'], 'controller_MPI.run :: post_step_processing under `not self.S.status.restart`', CCD + 'controller_MPI.py:controller_MPI.run', ['not self.S.status.restart'], inner)
